@@ -161,7 +161,8 @@ class CoerceExpectString(Contract):
     def ensures(self, v):
         sk = kind_of(getattr(v, 'args_v', {}).get('s'), v.old.s)
         if v.raised is not None:
-            return [('C20:only-text-to-bytes-mode-can-fail', And(v.old.self.encoding is None, sk == 's'))]
+            return [('C20:only-text-to-bytes-mode-can-fail', And(v.old.self.encoding is None, sk == 's')),
+                    ('C20:only-non-ascii-text-can-fail', Not(ascii_only(v.old.s)))]
         k = 'b' if v.old.self.encoding is None else 's'
         rk = kind_of(getattr(v, 'result_v', None), v.result)
         out = [('C20:same-text', eq(v.result, v.old.s))]
@@ -555,16 +556,17 @@ class Read(ReadLine):
 
     def shape(self, b):
         sp, kind = file_spawn(b)
-        c = b.choice('size', ['default', 'zero', 'negative'])
+        c = b.choice('size', ['default', 'zero', 'negative', 'positive'])
         size = b.const(-1) if c == 'default' else (b.const(0) if c == 'zero' else b.int('size'))
+        b.ghost('size_case', c)
         return dict(self=sp, size=size)
 
     def requires(self, v):
         out = spawn_inv(v.a.self)
-        if is_sym(v.a.size):
-            import z3
-            if not z3.is_int_value(z3.simplify(v.a.size)):
-                out.append(('size-negative', v.a.size < 0))
+        if v.g['size_case'] == 'negative':
+            out.append(('size-negative', v.a.size < 0))
+        if v.g['size_case'] == 'positive':
+            out.append(('size-positive', v.a.size >= 1))
         return out
 
     def exits(self, v):
@@ -577,10 +579,85 @@ class Read(ReadLine):
             return [('C01:size-zero-reads-nothing', And(eq(v.result, ''), untouched(v, old, new)))]
         if v.raised is not None:
             return [('C01+C04:failed-read-consumes-nothing', eq(pend_of(new), total))]
+        if v.g['size_case'] == 'positive':
+            # read(n): one expect([<n characters>, EOF]); what it hands back plus what stays pending is what was there
+            if eq(new.after, ClassConst('EOF')) is True:
+                return [('C01+C04:at-eof-returns-all-that-was-left', And(eq(v.result, total), eq(pend_of(new), '')))]
+            def is_text(x):
+                return isinstance(x, (str, bytes)) or (is_sym(x) and str(x.sort()) == 'String')
+            if not (is_text(new.before) and is_text(new.after)):
+                # no match was recorded by this call (before / after are not even strings): nothing accounts for
+                # what it returned
+                return [('C01:returns-what-the-match-consumed', False)]
+            return [('C01:returns-what-the-match-consumed', eq(v.result, new.after)),
+                    ('C01:consumed-plus-pending-is-what-was-there', eq(cat(new.before, v.result, pend_of(new)), total))]
         return [('C01+C04:returns-everything-up-to-eof', And(eq(v.result, total), eq(pend_of(new), ''), eq(new.after, ClassConst('EOF'))))]
 
 
+class ReadLineOracle(Contract):
+    """readline() as readlines() sees it: some text (a line, the rest of the stream, or '' at EOF); may time out"""
+    name = SB + '.readline'
+    only_in = 'readlines'
+    params = ['self', 'size']
+    defaults = {'size': -1}
+
+    def outcomes(self, v):
+        k = 'b' if v.a.self.encoding is None else 's'
+        return [Ret(TStr(k)), Raises('TIMEOUT')]
+
+    def effects(self, v):
+        if v.raised is None:
+            v.g['rl_concat'] = cat(v.g['rl_concat'], v.result)
+            v.g['rl_last'] = v.result
+            v.g['rl_calls'] = v.g['rl_calls'] + 1
+
+
+class ReadLinesLoop(LoopSpec):
+    def vars(self, v):
+        k = 'b' if v.old.self.encoding is None else 's'
+        return {'lines': TSymList((('l', TStr(k)),), True), 'line': TStr(k)}
+
+    def ghost(self, v):
+        k = 'b' if v.old.self.encoding is None else 's'
+        return {'rl_concat': TStr(k), 'rl_last': TStr(k), 'rl_calls': T.Int}
+
+    def invariant(self, v):
+        return [('C01:everything-readline-returned-is-collected-in-order', eq(list_join('', v.l.lines), v.g['rl_concat'])),
+                ('one-entry-per-non-empty-line', v.l.lines.len <= v.g['rl_calls'])]
+
+
+class ReadLines(Contract):
+    """readlines(): every line readline() hands back, in order, until readline() returns the empty string (EOF) -
+    including a last line that has no line end"""
+    name = SB + '.readlines'
+    props = ('C01',)
+    standin = False
+    context = 'readlines'
+    loops = {0: ReadLinesLoop()}
+
+    def shape(self, b):
+        kind = b.choice('mode', ['b', 's'])
+        sp = b.obj('self', SB, sealed=False, encoding=b.none() if kind == 'b' else b.const('utf-8'),
+                   after=b.any('after0'), delimiter=b.cls('EOF'))
+        b.ghost('rl_concat', '')
+        b.ghost('rl_last', None)
+        b.ghost('rl_calls', 0)
+        return dict(self=sp, sizehint=b.const(-1))
+
+    def exits(self, v):
+        return ('TIMEOUT',)
+
+    def ensures(self, v):
+        if v.raised is not None:
+            return []
+        g = v.g
+        return [('C01:returns-every-line-in-order', eq(list_join('', v.result), g['rl_concat'])),
+                ('C01:stops-only-when-readline-returns-nothing', And(g['rl_calls'] >= 1, eq(g['rl_last'], '')))]
+
+
 def register(reg):
+    reg.add(ReadLineOracle)
+    reg.add(ReadLines)
     for c in (ReadLine, Read):
         reg.add(c)
     for c in (CoerceExpectString, CoerceExpectRe, CompilePatternList, Expect, ExpectExact):
